@@ -1,6 +1,11 @@
-import PewProofs.Agilent
+import PewProofs.AgilentAgree
 
-/-! # C02 — property theorems (statements only depend on `PewModel.Agilent`) -/
+/-! # C02 — property theorems
+
+Every definition that occurs in a statement below lives in `PewModel/Agilent.lean` (core Lean only:
+mechanisms, specifications and the hypothesis predicates `Layout`, `CsvWF`, `StableSortedBy`,
+`Selected`, `SameShape`, `Near`), except `List.Forall₂`/`List.Perm`/`List.Pairwise`/`|·|` from the
+standard library.  `PewProofs/Agilent*.lean` hold helper lemmas only. -/
 namespace Pew.Agilent
 
 /-! ## line order from the batch log -/
@@ -91,54 +96,147 @@ theorem batchCsv_unrepaired_wrong :
     (log.filterMap (fun e => if e.result = pass then e.file.map basename else none)) ≠ batchXml log := by
   decide
 
-/-- Method-file reader vs log readers: when nothing failed or was repeated and the SampleIDs
-increase in acquisition order (`planned` is the sample list in that order), the method-file reader
-returns the log's list from ANY document order of the `SampleParameter` elements. -/
+/-- The method-file reader (`sorted(samples, key=SampleID)` then the `DataFileName` texts): its
+result is the `filterMap` of THE stable sort of the `SampleParameter` elements by SampleID — the
+unique list with the same elements, ascending SampleIDs (absent/empty = -1) and document order kept
+among equal SampleIDs — whatever the document order; it equals the executable specification `acqSpec`.
+No hypothesis. -/
+theorem acqMethod_spec (samples : List Sample) :
+    acqMethod samples = acqSpec samples ∧
+    ∃ sorted, StableSortedBy sampleKey samples sorted ∧ acqMethod samples = sorted.filterMap (·.file) ∧
+      ∀ s', StableSortedBy sampleKey samples s' → s' = sorted := by
+  refine ⟨?_, sortByInt sampleKey samples, sortByInt_stable sampleKey samples, rfl, ?_⟩
+  · unfold acqMethod acqSpec
+    rw [sortByInt_eq_acqSorted]
+  · intro s' hs'
+    exact stableSortedBy_unique sampleKey samples s' _ hs' (sortByInt_stable sampleKey samples)
+
+example : acqMethod [⟨some 5, some "b.d".toList⟩, ⟨none, some "x.d".toList⟩, ⟨some 2, none⟩, ⟨some 5, some "a.d".toList⟩,
+    ⟨some 0, some "c.d".toList⟩] = ["x.d".toList, "c.d".toList, "b.d".toList, "a.d".toList] := by
+  rw [(acqMethod_spec _).1]; decide
+
+/-- Method-file reader vs log readers.  The property's clause "when nothing failed or was repeated"
+is `hpass`/`hnodup`.  What relates the method file to the LOG ORDER is not in the property text and
+is a restriction of this theorem, stated as `hplan` + `hinc`: arranging the `SampleParameter`
+elements in acquisition order (`planned`: the i-th one names the i-th log entry's file), their
+SampleIDs strictly increase — i.e. the instrument ran the sample list in SampleID order.  Then the
+method-file reader returns the log's list from ANY document order of the elements (`hperm`). -/
 theorem acq_eq_log (log : List LogEntry) (samples planned : List Sample)
-    (hperm : samples.Perm planned) (h : acqLogHyp log planned = true) :
-    acqMethod samples = batchXml log := by
-  simp only [acqLogHyp, Bool.and_eq_true, List.all_eq_true, decide_eq_true_eq] at h
-  obtain ⟨⟨⟨hpass, hnodup⟩, hinc⟩, hnames⟩ := h
-  have hp : ∀ e ∈ log, e.result = pass := fun e he => (hpass e he).1
-  unfold acqMethod
-  rw [sortByInt_of_perm_strict samples planned hperm hinc, batchXml_eq, xmlNames_of_allPass log hp,
-    keepLast_of_nodup _ (nodup_filterMap_id _ hnodup), ← hnames]
-  simp [List.filterMap_map]
+    (hpass : ∀ e ∈ log, e.result = pass)
+    (hnodup : (log.map logName).Nodup)
+    (hperm : samples.Perm planned)
+    (hplan : planned.map (·.file) = log.map logName)
+    (hinc : planned.Pairwise (fun a b => sampleKey a < sampleKey b)) :
+    acqMethod samples = batchXml log ∧ acqSpec samples = logSpec log := by
+  have h1 : acqMethod samples = batchXml log := by
+    unfold acqMethod
+    rw [sortByInt_of_perm_strict samples planned hperm hinc, batchXml_eq, xmlNames_of_allPass log hpass,
+      keepLast_of_nodup _ (nodup_filterMap_id _ hnodup), ← hplan]
+    simp [List.filterMap_map]
+  refine ⟨h1, ?_⟩
+  rw [← (acqMethod_spec samples).1, h1, (batchXml_spec log).1]
+
+/-- non-vacuity of `acq_eq_log`: document order 9.d, 10.d; acquired 10.d (SampleID 3) then 9.d (SampleID 7) -/
+example : acqMethod [⟨some 7, some "9.d".toList⟩, ⟨some 3, some "10.d".toList⟩]
+    = batchXml [⟨pass, some "b\\10.d".toList⟩, ⟨pass, some "b\\9.d".toList⟩] :=
+  (acq_eq_log _ _ [⟨some 3, some "10.d".toList⟩, ⟨some 7, some "9.d".toList⟩] (by decide) (by decide)
+    (List.Perm.swap _ _ _) (by decide) (by decide)).1
+
+/-- the Boolean the driver reports is exactly the conjunction of the hypotheses of `acq_eq_log` -/
+theorem acqLogHyp_iff (log : List LogEntry) (planned : List Sample) :
+    acqLogHyp log planned = true ↔
+      (∀ e ∈ log, e.result = pass ∧ e.file.isSome = true) ∧ (log.map logName).Nodup ∧
+      planned.Pairwise (fun a b => sampleKey a < sampleKey b) ∧ planned.map (·.file) = log.map logName := by
+  simp only [acqLogHyp, Bool.and_eq_true, List.all_eq_true, decide_eq_true_eq]
+  tauto
 
 example : acqLogHyp [⟨pass, some "b\\10.d".toList⟩, ⟨pass, some "b\\9.d".toList⟩]
     [⟨some 3, some "10.d".toList⟩, ⟨some 7, some "9.d".toList⟩] = true := by decide
 
-/-- The directory-scan fallback returns exactly the data directories of the listing, ascending in
-the number formed by the digits of their names. -/
+/-- The restriction `hinc` cannot be dropped: a clean log (nothing failed, nothing repeated) whose
+two files were acquired against the SampleID order — the method-file reader lists them the other
+way round. -/
+theorem acq_ne_log_without_hinc :
+    let log : List LogEntry := [⟨pass, some "10.d".toList⟩, ⟨pass, some "9.d".toList⟩]
+    let samples : List Sample := [⟨some 2, some "10.d".toList⟩, ⟨some 1, some "9.d".toList⟩]
+    samples.map (·.file) = log.map logName ∧ acqMethod samples ≠ batchXml log := by
+  intro log samples
+  rw [(acqMethod_spec samples).1]; decide
+
+/-- The directory-scan fallback raises (ValueError from `int("")`) exactly when some data
+directory's name has no digit; otherwise it returns exactly the data directories of the listing,
+ascending in the number formed by the digits of their names. -/
 theorem byNumber_sorted_perm (listing : List Entry) :
-    (byNumber listing).Perm (dataDirs listing) ∧
-    (byNumber listing).Pairwise (fun a b => digitsVal a ≤ digitsVal b) :=
-  ⟨Pew.SortAgilent.sortKey_perm digitsVal _, Pew.SortAgilent.sortKey_sorted digitsVal _⟩
+    (byNumber listing = none ↔ ∃ n ∈ dataDirs listing, hasDigit n = false) ∧
+    ∀ l, byNumber listing = some l →
+      l.Perm (dataDirs listing) ∧ l.Pairwise (fun a b => digitsVal a ≤ digitsVal b) := by
+  unfold byNumber
+  constructor
+  · by_cases h : (dataDirs listing).all hasDigit = true
+    · simp only [h, if_true, reduceCtorEq, false_iff, not_exists, not_and]
+      intro n hn
+      simpa using List.all_eq_true.mp h n hn
+    · simp only [h, Bool.false_eq_true, if_false, true_iff]
+      simpa using h
+  · intro l hl
+    split at hl
+    · simp only [Option.some.injEq] at hl
+      subst hl
+      exact ⟨Pew.SortAgilent.sortKey_perm digitsVal _, Pew.SortAgilent.sortKey_sorted digitsVal _⟩
+    · simp at hl
 
 /-- ... and, when the numbers are pairwise distinct, it does not depend on the order in which the
 directory is listed. -/
 theorem byNumber_listing_independent (l₁ l₂ : List Entry) (hp : l₁.Perm l₂)
     (hinj : ∀ a ∈ dataDirs l₁, ∀ b ∈ dataDirs l₁, digitsVal a = digitsVal b → a = b) :
-    byNumber l₁ = byNumber l₂ :=
-  Pew.SortAgilent.sortKey_perm_invariant digitsVal _ _ (dataDirs_perm l₁ l₂ hp) hinj
+    byNumber l₁ = byNumber l₂ := by
+  unfold byNumber
+  have hd := dataDirs_perm l₁ l₂ hp
+  have hall : (dataDirs l₁).all hasDigit = (dataDirs l₂).all hasDigit := by
+    rw [Bool.eq_iff_iff, List.all_eq_true, List.all_eq_true]
+    exact ⟨fun h x hx => h x (hd.mem_iff.mpr hx), fun h x hx => h x (hd.mem_iff.mp hx)⟩
+  rw [hall]
+  split
+  · congr 1
+    exact Pew.SortAgilent.sortKey_perm_invariant digitsVal _ _ hd hinj
+  · rfl
 
 /-- ... and equals the insertion-sort specification. -/
 theorem byNumber_eq_spec (listing : List Entry)
     (hinj : ∀ a ∈ dataDirs listing, ∀ b ∈ dataDirs listing, digitsVal a = digitsVal b → a = b) :
     byNumber listing = byNumberSpec listing := by
-  have hs := foldl_insert_perm_sorted (dataDirs listing) [] List.Pairwise.nil
-  have hp : (byNumberSpec listing).Perm (dataDirs listing) := by simpa [byNumberSpec] using hs.1
-  unfold byNumber sortByNat
-  apply Pew.SortAgilent.mergeSort_eq_sorted_of_perm _ (Pew.SortAgilent.keyLe_trans digitsVal)
-    (Pew.SortAgilent.keyLe_total digitsVal) _ _ hp.symm
-  · exact hs.2.imp (fun h => by simpa using h)
-  · intro a ha b hb h1 h2
-    simp only [decide_eq_true_eq] at h1 h2
-    exact hinj a (hp.mem_iff.mp ha) b (hp.mem_iff.mp hb) (Nat.le_antisymm h1 h2)
+  unfold byNumber byNumberSpec
+  by_cases hall : (dataDirs listing).all hasDigit = true
+  · have hany : (dataDirs listing).any (fun n => !hasDigit n) = false := by
+      rw [List.any_eq_false]
+      intro x hx
+      simpa using List.all_eq_true.mp hall x hx
+    rw [if_pos hall, hany]
+    simp only [Bool.false_eq_true, if_false, Option.some.injEq]
+    have hs := foldl_insert_perm_sorted (dataDirs listing) [] List.Pairwise.nil
+    have hp : ((dataDirs listing).foldl (fun acc x => insertByNum x acc) []).Perm (dataDirs listing) := by
+      simpa using hs.1
+    unfold sortByNat
+    apply Pew.SortAgilent.mergeSort_eq_sorted_of_perm _ (Pew.SortAgilent.keyLe_trans digitsVal)
+      (Pew.SortAgilent.keyLe_total digitsVal) _ _ hp.symm
+    · exact hs.2.imp (fun h => by simpa using h)
+    · intro a ha b hb h1 h2
+      simp only [decide_eq_true_eq] at h1 h2
+      exact hinj a (hp.mem_iff.mp ha) b (hp.mem_iff.mp hb) (Nat.le_antisymm h1 h2)
+  · have hany : (dataDirs listing).any (fun n => !hasDigit n) = true := by
+      rw [List.any_eq_true]
+      simp only [Bool.not_eq_true, List.all_eq_true, not_forall] at hall
+      obtain ⟨x, hx, hd⟩ := hall
+      exact ⟨x, hx, by simpa using hd⟩
+    rw [if_neg hall, hany]
+    rfl
 
 example : byNumber [⟨"10.d".toList, true⟩, ⟨"Method".toList, true⟩, ⟨"9.D".toList, true⟩,
-    ⟨"100.d".toList, true⟩, ⟨"7.d".toList, false⟩] = ["9.D".toList, "10.d".toList, "100.d".toList] := by
+    ⟨"100.d".toList, true⟩, ⟨"7.d".toList, false⟩] = some ["9.D".toList, "10.d".toList, "100.d".toList] := by
   rw [byNumber_eq_spec _ (by decide)]; decide
+
+/-- a data directory without a digit in its name: the scan raises -/
+example : byNumber [⟨"10.d".toList, true⟩, ⟨"abc.d".toList, true⟩] = none := by decide
 
 /-- `collect_datafiles` as a whole (any list of methods, any subset of metadata files present, any
 directory content): the mechanism returns what the specification of each reader returns, given
@@ -164,21 +262,26 @@ theorem collect_eq_spec (m : Meta) (methods : List Method)
       | some rows =>
         simp only [Option.map_some, Bool.false_eq_true, if_false, if_true]
         rw [batchCsv_eq, csvNames_eq_spec rows (hcsv rows hc)]
-    | acqMethod => rfl
+    | acqMethod =>
+      simp only [Meta.source]
+      cases m.acq with
+      | none => rfl
+      | some l => simp [(acqMethod_spec l).1]
     | alphabetical => rfl
+  have hscan : m.scan false = m.scan true := by
+    simp [Meta.scan, byNumber_eq_spec m.listing hnum]
   have hc : collect m false methods = collect m true methods := by
     induction methods with
     | nil => rfl
     | cons meth rest ih =>
       cases meth with
-      | alphabetical => simp [collect, byNumber_eq_spec m.listing hnum]
+      | alphabetical => simp [collect, hscan]
       | batchXml => simp only [collect, hsrc, ih]
       | batchCsv => simp only [collect, hsrc, ih]
       | acqMethod => simp only [collect, hsrc, ih]
   refine ⟨hc, ?_⟩
   unfold linesOf
-  rw [hc]
-  simp [byNumber_eq_spec m.listing hnum]
+  rw [hc, hscan]
 
 /-- non-vacuity of `collect_eq_spec`: a CSV log with a failed and a repeated entry, three data
 directories whose listing, alphabetical and numeric orders differ -/
@@ -194,6 +297,67 @@ example :
   intro rows h
   simp only [Option.some.injEq] at h
   subst h
+  decide
+
+/-- The selection loop of `collect_datafiles` against its declarative specification `Selected`
+(which does not mention the loop): `r` is the result iff it is what the FIRST method of the list
+that does not fail gives, every earlier method having failed — a listing method fails when its
+metadata file is absent or names a data file that does not exist; `alphabetical` never fails (its
+scan may raise); `none` = ValueError when all fail.  Any list of methods (repeats included), any
+metadata, mechanism or specification readers; in particular the specification determines the result
+uniquely. -/
+theorem collect_spec (m : Meta) (spc : Bool) (methods : List Method) (r : Option (List Name)) :
+    Selected m (m.source spc) (m.scan spc) methods r ↔ collect m spc methods = r := by
+  induction methods with
+  | nil =>
+    rw [selected_nil]
+    exact ⟨fun h => h ▸ rfl, fun h => h ▸ rfl⟩
+  | cons x rest ih =>
+    rw [selected_cons, ih]
+    by_cases hx : x = .alphabetical
+    · subst hx
+      simp only [collect, Meta.Fails, ne_eq, not_true_eq_false, false_and, or_false, true_and]
+      exact eq_comm
+    · rw [collect_cons_of_ne m spc x rest hx]
+      simp only [hx, false_and, false_or, ne_eq, not_false_eq_true, true_and, Meta.Fails]
+      cases hs : m.source spc x with
+      | none => simp
+      | some files =>
+        by_cases hall : files.all m.exists = true
+        · have hall' : ∀ f ∈ files, m.exists f = true := List.all_eq_true.mp hall
+          simp only [Option.some.injEq, exists_eq_left', hall, if_true]
+          constructor
+          · rintro (⟨_, h⟩ | ⟨h, _⟩)
+            · exact h.symm
+            · obtain ⟨f, hf, hfe⟩ := h files rfl
+              rw [hall' f hf] at hfe
+              exact absurd hfe (by simp)
+          · intro h
+            exact Or.inl ⟨hall', h.symm⟩
+        · have hne : ∃ f ∈ files, m.exists f = false := by
+            simp only [List.all_eq_true, not_forall, Bool.not_eq_true] at hall
+            obtain ⟨f, hf, hfe⟩ := hall
+            exact ⟨f, hf, hfe⟩
+          simp only [Option.some.injEq, exists_eq_left', hall, Bool.false_eq_true, if_false]
+          constructor
+          · rintro (⟨h, _⟩ | ⟨_, h⟩)
+            · obtain ⟨f, hf, hfe⟩ := hne
+              rw [h f hf] at hfe
+              exact absurd hfe (by simp)
+            · exact h
+          · intro h
+            exact Or.inr ⟨fun fs hfs => hfs ▸ hne, h⟩
+
+/-- non-vacuity of `collect_spec`: BatchLog.xml names a missing file (fails), BatchLog.csv is absent
+(fails), the method file lists two existing files: selected, whatever comes after it -/
+example :
+    let m : Meta := { listing := [⟨"10.d".toList, true⟩, ⟨"9.d".toList, true⟩, ⟨"Method".toList, true⟩],
+                      xml := some [⟨pass, some "b\\10.d".toList⟩, ⟨pass, some "b\\8.d".toList⟩], csv := none,
+                      acq := some [⟨some 2, some "9.d".toList⟩, ⟨some 1, some "10.d".toList⟩] }
+    Selected m (m.source true) (m.scan true) [.batchXml, .batchCsv, .acqMethod, .alphabetical]
+      (some ["10.d".toList, "9.d".toList]) := by
+  intro m
+  rw [collect_spec]
   decide
 
 /-! ## binary decoding -/
@@ -559,8 +723,8 @@ theorem csv_pixel {α : Type} (m : Meta) (files : List (DataFile α)) (names : O
           cases hc : f.csv with
           | none => rfl
           | some c =>
-            obtain ⟨W, h1, _, _⟩ := hfiles f (hmem f hf) c hc
-            exact csvCols_eq_spec ncol nscan c W.parse (fun r hr => by rw [W.width r hr, h1])
+            obtain ⟨W, h1, h2, _⟩ := hfiles f (hmem f hf) c hc
+            exact csvCols_eq_spec ncol nscan c W.parse (fun r hr => by rw [W.width r hr, h1]) h2
         rw [hcols, List.map_map]
         -- names
         cases hh : c0.header with
@@ -592,18 +756,164 @@ example : ∀ f ∈ exCsvFiles, ∀ c, f.csv = some c →
     exact ⟨exCsv_wf, rfl, rfl, by decide⟩
   · simp at hc
 
+theorem allSome_getElem? {β : Type} (l : List (Option β)) (r : List β) (h : allSome l = some r) (i : Nat) :
+    l[i]? = (r[i]?).map some := by
+  rw [allSome_eq_some l r h, List.getElem?_map]
+
+/-- The CSV import, pixel by pixel, without `loadCsvSpec`: when `load_csv` returns an image, its
+lines are the collected lines and, with `f` the data file of line `i`: if `f` has no export the
+whole line (time column included) is 0; otherwise pixel `[i][j][r]` is the decimal printed in field
+`j+1` of data row `r` of `f`'s export and the time is field 0.  Hypotheses as for `csv_pixel`. -/
+theorem csv_import_pointwise {α : Type} (m : Meta) (files : List (DataFile α)) (names : Option (List Name))
+    (methods : List Method) (ncol nscan : Nat) (hscan : 2 ≤ nscan)
+    (hfiles : ∀ f ∈ files, ∀ c, f.csv = some c →
+      CsvWF c ∧ c.header.length = ncol ∧ c.rows.length = nscan ∧ (c.header.head?).map validName = some timeName)
+    (hnames : ∀ ns, names = some ns → ns.length = ncol - 1)
+    (hlines : linesOf m false methods = linesOf m true methods)
+    (im : Image Rat) (h : loadCsv m files names methods = .ok im) :
+    ∃ lines, linesOf m true methods = .ok lines ∧ im.img.length = lines.length ∧ im.times.length = lines.length ∧
+      ∀ (i : Nat) (hi : i < lines.length), ∃ f, findFile files lines[i] = some f ∧
+        (f.csv = none → im.times[i]? = some (List.replicate nscan 0) ∧
+          ∀ j r, j + 1 < ncol → r < nscan → px im.img i j r = some 0) ∧
+        (∀ c, f.csv = some c → ∀ r, r < nscan →
+          (im.times[i]?).bind (·[r]?) = ((c.rows[r]?).bind (·[0]?)).bind parseDec ∧
+          ∀ j, j + 1 < ncol → px im.img i j r = ((c.rows[r]?).bind (·[j + 1]?)).bind parseDec) := by
+  rw [csv_pixel m files names methods ncol nscan hscan hfiles hnames hlines] at h
+  unfold loadCsvSpec at h
+  cases hl : linesOf m true methods with
+  | error e => rw [hl] at h; simp at h
+  | ok lines =>
+    rw [hl] at h
+    simp only at h
+    cases hd : allSome (lines.map (findFile files)) with
+    | none => rw [hd] at h; simp at h
+    | some dfs =>
+      rw [hd] at h
+      simp only at h
+      have hmem := mem_files_of_lines files lines dfs hd
+      cases hcs : dfs.filterMap (·.csv) with
+      | nil => rw [hcs] at h; simp at h
+      | cons c0 rest =>
+        rw [hcs] at h
+        simp only at h
+        obtain ⟨f0, hf0, e0⟩ : ∃ f ∈ dfs, f.csv = some c0 := by
+          have : c0 ∈ dfs.filterMap (·.csv) := by rw [hcs]; simp
+          obtain ⟨f, hf, e⟩ := List.mem_filterMap.mp this
+          exact ⟨f, hf, e⟩
+        obtain ⟨W0, hcol0, hrow0, _⟩ := hfiles f0 (hmem f0 hf0) c0 e0
+        have hncol : 0 < ncol := by
+          rw [← hcol0]
+          exact List.length_pos_iff.mpr W0.header_ne
+        rw [hcol0, hrow0] at h
+        cases hc : allSome (dfs.map (fun f => csvLineSpec ncol nscan f.csv)) with
+        | none => rw [hc] at h; simp at h
+        | some cols =>
+          rw [hc] at h
+          simp only [Except.ok.injEq] at h
+          subst h
+          have e := allSome_eq_some _ _ hd
+          have hlen : dfs.length = lines.length := by
+            have := congrArg List.length e
+            simpa using this.symm
+          have hclen : cols.length = dfs.length := by
+            have := congrArg List.length (allSome_eq_some _ _ hc)
+            simpa using this.symm
+          refine ⟨lines, rfl, by simp [hclen, hlen], by simp [hclen, hlen], ?_⟩
+          intro i hi
+          have hi' : i < dfs.length := by omega
+          have hi'' : i < cols.length := by omega
+          have hline : csvLineSpec ncol nscan dfs[i].csv = some cols[i] := by
+            have := allSome_getElem? _ _ hc i
+            simpa [hi', hi''] using this
+          refine ⟨dfs[i], ?_, ?_, ?_⟩
+          · have := congrArg (fun l => l[i]?) e
+            simpa [hi, hi'] using this
+          · intro hnone
+            rw [hnone] at hline
+            simp only [csvLineSpec, Option.some.injEq] at hline
+            constructor
+            · simp only [List.getElem?_map, List.getElem?_eq_getElem hi'', Option.map_some, ← hline]
+              cases ncol with
+              | zero => exact absurd hncol (by omega)
+              | succ n => simp [List.replicate_succ]
+            · intro j r hj hr
+              unfold px
+              simp only [List.getElem?_map, List.getElem?_eq_getElem hi'', Option.map_some, Option.bind_some,
+                ← hline, List.getElem?_drop]
+              rw [List.getElem?_replicate, if_pos (by omega)]
+              simp [hr]
+          · intro c hsome r hr
+            obtain ⟨_, hcol, hrow, _⟩ := hfiles dfs[i] (hmem _ (List.getElem_mem hi')) c hsome
+            rw [hsome] at hline
+            simp only [csvLineSpec] at hline
+            have hr' : r < c.rows.length := by omega
+            -- column `jj` of the line
+            have hcolumn : ∀ jj, jj < ncol → ∃ col, cols[i][jj]? = some col ∧
+                col[r]? = some (((c.rows[r]?).bind (·[jj]?)).bind parseDec).get! ∧
+                (((c.rows[r]?).bind (·[jj]?)).bind parseDec).isSome = true := by
+              intro jj hjj
+              have h1 := allSome_getElem? _ _ hline jj
+              simp only [List.getElem?_map, List.getElem?_range hjj, Option.map_some] at h1
+              cases hcj : cols[i][jj]? with
+              | none => rw [hcj] at h1; simp at h1
+              | some col =>
+                rw [hcj] at h1
+                simp only [Option.map_some, Option.some.injEq] at h1
+                have h2 := allSome_getElem? _ _ h1 r
+                simp only [List.getElem?_map, List.getElem?_eq_getElem hr', Option.map_some] at h2
+                cases hcr : col[r]? with
+                | none => rw [hcr] at h2; simp at h2
+                | some v =>
+                  rw [hcr] at h2
+                  simp only [Option.map_some, Option.some.injEq] at h2
+                  refine ⟨col, rfl, ?_, ?_⟩
+                  · simp [List.getElem?_eq_getElem hr', h2, hcr]
+                  · simp [List.getElem?_eq_getElem hr', h2]
+            constructor
+            · obtain ⟨col, g1, g2, g3⟩ := hcolumn 0 hncol
+              have hhead : cols[i].headD [] = col := by
+                cases hci : cols[i] with
+                | nil => rw [hci] at g1; simp at g1
+                | cons a as => rw [hci] at g1; simpa using g1
+              simp only [List.getElem?_map, List.getElem?_eq_getElem hi'', Option.map_some, Option.bind_some, hhead, g2]
+              exact (Option.some_get! _ g3)
+            · intro j hj
+              obtain ⟨col, g1, g2, g3⟩ := hcolumn (j + 1) hj
+              unfold px
+              simp only [List.getElem?_map, List.getElem?_eq_getElem hi'', Option.map_some, Option.bind_some,
+                List.getElem?_drop, Nat.add_comm 1 j, g1, g2]
+              exact (Option.some_get! _ g3)
+
+/-- non-vacuity of `csv_import_pointwise` (with `exMeta`, `exCsvFiles` above: lines 10.d — no export — and 9.d): the import succeeds -/
+example : ∃ im, loadCsv exMeta exCsvFiles none [.batchXml] = .ok im := ⟨_, rfl⟩
+
 /-- A line whose CSV is missing is zero-filled: every column (the time column included) of every
-scan is 0; a line whose CSV is present holds, at `[column][scan]`, field `column` of data row `scan`. -/
+scan is 0; a line whose CSV is present (with the image's number of scans) holds, at `[column][scan]`,
+field `column` of data row `scan`. -/
 theorem zero_fill (ncol nscan j r : Nat) (hj : j < ncol) :
     (r < nscan → ((csvCols ncol nscan none)[j]?).bind (fun col => col[r]?) = some 0) ∧
-    (∀ t : Table, (∀ row ∈ t.rows, row.length = ncol) → r < t.rows.length →
+    (∀ t : Table, (∀ row ∈ t.rows, row.length = ncol) → t.rows.length = nscan → r < nscan →
       ((csvCols ncol nscan (some t))[j]?).bind (fun col => col[r]?) = (t.rows[r]?).bind (fun row => row[j]?)) := by
   constructor
   · intro hr
     simp [csvCols, hj, hr]
-  · intro t hrows hr
+  · intro t hrows hn hr
+    subst hn
     have hlen : j < (t.rows[r]).length := by rw [hrows _ (List.getElem_mem hr)]; exact hj
-    simp [csvCols, transpose, hj, hr, List.getD, hlen]
+    simp [csvCols, csvRows, transpose, hj, hr, List.getD, hlen]
+
+/-- What NumPy does with exports of unequal length (outside the property's quantifier, compared
+mechanism-vs-pewlib only): an export with a single data row is read as a 0-d record and BROADCAST
+over all scans of the image. -/
+theorem single_row_broadcast (ncol nscan j r : Nat) (hj : j < ncol) (hr : r < nscan) (hn : nscan ≠ 1)
+    (t : Table) (row : List Rat) (ht : t.rows = [row]) (hrow : row.length = ncol) :
+    ((csvCols ncol nscan (some t))[j]?).bind (fun col => col[r]?) = row[j]? := by
+  have hlen : j < row.length := by omega
+  have hne : ¬ (1 = nscan) := fun h => hn h.symm
+  simp [csvCols, csvRows, ht, transpose, hj, hr, hne, List.getD, hlen]
+
+example : ((csvCols 2 3 (some ⟨[], [[5, 6]]⟩))[1]?).bind (fun col => col[2]?) = some 6 :=
+  single_row_broadcast 2 3 1 2 (by decide) (by decide) (by decide) ⟨[], [[5, 6]]⟩ [5, 6] rfl rfl
 
 /-- The reported scan time: the mean of all consecutive differences of a `rows × m` table of times
 is the sum over the rows of (last − first), divided by `rows·(m − 1)`. -/
@@ -630,5 +940,210 @@ theorem meandiff_telescope (times : List (List Rat)) (m : Nat) (hm : 2 ≤ m)
 
 example : meanDiff [[1, 3, 4], [0, 1, 5]] = 2 := by
   simp [meanDiff, diffs]; norm_num
+
+/-! ## pointwise statements (no reference to the `…Spec` functions) -/
+
+/-- the Boolean the driver reports implies the layout hypothesis of `binary_pixel`/`stack_pixel` -/
+theorem layoutB_sound {α : Type} (k : Nat) (scans : List ScanRec) (profile : List (List α))
+    (h : layoutB k scans profile = true) : ∃ bc, Layout scans.length k bc scans profile := by
+  unfold layoutB at h
+  simp only [Bool.and_eq_true, beq_iff_eq, List.all_eq_true, decide_eq_true_eq] at h
+  obtain ⟨⟨⟨h1, h2⟩, h3⟩, h4⟩ := h
+  refine ⟨(scans.head?.map (·.bc)).getD 0, ⟨h1, rfl, h2, ?_, h3⟩⟩
+  intro r hr
+  have := h4 (scans[r], r) (by rw [List.mem_zipIdx_iff_getElem?]; simp [hr])
+  simpa using this
+
+example : layoutB 2 [⟨68, 56, 0⟩, ⟨124, 56, 1⟩] [[(1 : Nat), 2], [3, 4]] = true := by decide
+example : layoutB 2 [⟨68, 56, 0⟩, ⟨12, 56, 1⟩] [[(1 : Nat), 2], [3, 4]] = false := by decide
+
+/-- The binary import, pixel by pixel, without `loadBinarySpec`: when `load_binary` returns an
+image, its lines are the collected lines (`lines`, which `collect_spec`/`collect_eq_spec`
+characterise), element names are those of the mass table, and for every line `i`, with `f` the data
+file of that name, pixel `[i][j][r]` is the Analog value of element `j` in profile record `r` of
+`f` and the times are `f`'s scan times in seconds.  Hypotheses as for `stack_pixel`. -/
+theorem binary_import_pointwise {α : Type} (m : Meta) (files : List (DataFile α)) (ms : List MassInfo)
+    (methods : List Method) (R k : Nat)
+    (hids : ms.map (·.id) = List.range' 1 k)
+    (hfiles : ∀ f ∈ files, f.hasBinary = true ∧ ∃ bc, Layout R k bc f.scans f.profile)
+    (hlines : linesOf m false methods = linesOf m true methods)
+    (im : Image α) (h : loadBinary m files (some ms) methods = .ok im) :
+    ∃ lines, linesOf m true methods = .ok lines ∧ im.names = ms.map (·.str) ∧
+      im.img.length = lines.length ∧ im.times.length = lines.length ∧
+      ∀ (i : Nat) (hi : i < lines.length), ∃ f, findFile files lines[i] = some f ∧
+        im.times[i]? = some (f.scans.map (fun s => s.time * 60)) ∧
+        ∀ j r, j < k → r < R → px im.img i j r = (f.profile[r]?).bind (fun row => row[j]?) := by
+  rw [stack_pixel m files ms methods R k hids hfiles hlines] at h
+  unfold loadBinarySpec at h
+  cases hl : linesOf m true methods with
+  | error e => rw [hl] at h; simp [bind, Except.bind] at h
+  | ok lines =>
+    rw [hl] at h
+    simp only [bind, Except.bind] at h
+    cases hd : allSome (lines.map (findFile files)) with
+    | none => rw [hd] at h; simp [orErr] at h
+    | some dfs =>
+      rw [hd] at h
+      have hmem := mem_files_of_lines files lines dfs hd
+      have hbin : (dfs.all (·.hasBinary)) = true := by
+        rw [List.all_eq_true]; exact fun f hf => (hfiles f (hmem f hf)).1
+      simp only [orErr, hbin, Bool.not_true, Bool.false_eq_true, if_false, pure, Except.pure, Except.ok.injEq] at h
+      subst h
+      have e := allSome_eq_some _ _ hd
+      have hlen : dfs.length = lines.length := by
+        have := congrArg List.length e
+        simpa using this.symm
+      have hk : ms.length = k := by
+        have := congrArg List.length hids
+        simpa using this
+      refine ⟨lines, rfl, rfl, by simp [hlen], by simp [hlen], ?_⟩
+      intro i hi
+      have hi' : i < dfs.length := by omega
+      refine ⟨dfs[i], ?_, by simp [hi'], ?_⟩
+      · have := congrArg (fun l => l[i]?) e
+        simpa [hi, hi'] using this
+      · intro j r hj hr
+        obtain ⟨bc, L⟩ := (hfiles dfs[i] (hmem _ (List.getElem_mem hi'))).2
+        have hcol : ∀ row ∈ dfs[i].profile, ∃ v, row[j]? = some v := by
+          intro row hrow
+          have := L.width row hrow
+          exact ⟨row[j], by rw [List.getElem?_eq_getElem]⟩
+        unfold px
+        simp [hi', hk, hj, column_getElem _ j hcol r]
+
+/-- non-vacuity of `binary_import_pointwise` (with `exMeta`, `exFiles` above): the import succeeds -/
+example : ∃ im, loadBinary exMeta exFiles (some [⟨1, "P".toList, 1, 31, none⟩, ⟨2, "Eu".toList, 1, 153, none⟩]) [.batchXml]
+    = .ok im := ⟨_, rfl⟩
+
+/-- counts per second, pixel by pixel: every value of element `j` is divided by the accumulation
+time of the `j`-th mass; names and times are untouched.  No hypothesis beyond `j` being a mass. -/
+theorem cps_pixel (masses : List MassInfo) (im : Image Rat) (i j r : Nat) (ms : MassInfo)
+    (hm : masses[j]? = some ms) :
+    px (cps masses im).img i j r = (px im.img i j r).map (· / ms.acctime) ∧
+    (cps masses im).img.length = im.img.length ∧
+    (cps masses im).names = im.names ∧ (cps masses im).times = im.times := by
+  refine ⟨?_, by simp [cps], rfl, rfl⟩
+  unfold px cps
+  simp only [List.getElem?_map]
+  cases im.img[i]? with
+  | none => rfl
+  | some line =>
+    simp only [Option.map_some, Option.bind_some, List.getElem?_map]
+    have hz : (line.zip masses)[j]? = (line[j]?).map (fun c => (c, ms)) := by
+      unfold List.zip
+      rw [List.getElem?_zipWith, hm]
+      cases line[j]? <;> rfl
+    rw [hz]
+    cases line[j]? with
+    | none => rfl
+    | some col => simp
+
+example : px (cps [⟨1, "P".toList, 1/2, 31, none⟩, ⟨2, "Eu".toList, 1/4, 153, none⟩]
+    ⟨[], [[[1, 2], [3, 4]]], []⟩).img 0 1 0 = some 12 := by
+  rw [(cps_pixel _ _ 0 1 0 ⟨2, "Eu".toList, 1/4, 153, none⟩ rfl).1]
+  simp [px]; norm_num
+
+/-! ## binary-vs-CSV agreement to the printed precision -/
+
+/-- what `agree` decides: the present lines have the same shape in both images and every pixel of
+a present line satisfies `|x − y| ≤ tol + slack·(|x| + |y|)` -/
+theorem agree_iff (tol slack : Rat) (present : List Bool) (bin csv : Image Rat) :
+    agree tol slack present bin csv = true ↔
+      SameShape present bin.img csv.img ∧
+      ∀ (i j r : Nat) x y, present[i]? = some true → px bin.img i j r = some x → px csv.img i j r = some y →
+        |x - y| ≤ tol + slack * (|x| + |y|) := by
+  rw [agree_iff']
+  simp only [agreePx_iff]
+
+/-- "The binary import and the import of the per-line CSV exports agree to the precision of the CSV
+text": if every number `y` in a present line's CSV is a value `v` rounded to `d` decimals
+(`|y − v| ≤ ½·10⁻ᵈ`: the hypothesis on the printer, met e.g. by `roundDec`), `v` being the binary
+import's value `x` up to one correctly rounded float64 operation (`|v − x| ≤ 2⁻⁵³|x|`: the
+counts-per-second division of the exporting software), then the two images `agree` to half a unit
+of the `d`-th decimal, with the slack `printSlack`.  Any shape, any subset of lines present. -/
+theorem agree_of_printed (d : Nat) (present : List Bool) (bin csv : Image Rat)
+    (hshape : SameShape present bin.img csv.img)
+    (hprint : ∀ (i j r : Nat) x y, present[i]? = some true → px bin.img i j r = some x →
+      px csv.img i j r = some y → ∃ v, |v - x| ≤ 1 / 2 ^ 53 * |x| ∧ |y - v| ≤ halfUnit d) :
+    agree (halfUnit d) printSlack present bin csv = true := by
+  rw [agree_iff]
+  refine ⟨hshape, ?_⟩
+  intro i j r x y hp hx hy
+  obtain ⟨v, h1, h2⟩ := hprint i j r x y hp hx hy
+  have e : x - y = -(v - x) + -(y - v) := by ring
+  have t : |x - y| ≤ |v - x| + |y - v| := by
+    rw [e]
+    exact (abs_add_le _ _).trans (by rw [abs_neg, abs_neg])
+  have px := abs_nonneg x
+  have py := abs_nonneg y
+  unfold printSlack
+  norm_num at h1 ⊢
+  linarith
+
+/-- a printer meeting the hypothesis exists: round-half-up to `d` decimals -/
+theorem roundDec_within (d : Nat) (q : Rat) : |roundDec d q - q| ≤ halfUnit d := roundDec_spec d q
+
+/-- non-vacuity of `agree_of_printed`: any value printed with two decimals, a second line whose CSV
+is missing (zero-filled) -/
+example (x : Rat) : agree (halfUnit 2) printSlack [true, false] ⟨[], [[[x]], [[7]]], []⟩
+    ⟨[], [[[roundDec 2 x]], [[0]]], []⟩ = true := by
+  apply agree_of_printed
+  · refine ⟨rfl, rfl, ?_⟩
+    intro i la lb hp ha hb
+    match i with
+    | 0 =>
+      simp only [List.getElem?_cons_zero, Option.some.injEq] at ha hb
+      subst ha hb
+      refine ⟨rfl, ?_⟩
+      intro j ca cb hca hcb
+      match j with
+      | 0 =>
+        simp only [List.getElem?_cons_zero, Option.some.injEq] at hca hcb
+        subst hca hcb
+        rfl
+      | j + 1 => simp at hca
+    | 1 => simp at hp
+    | i + 2 => simp at hp
+  · intro i j r a b hp ha hb
+    match i with
+    | 0 =>
+      obtain ⟨la, ca, h1, h2, h3⟩ := (px_eq_some _ _ _ _ _).mp ha
+      obtain ⟨lb, cb, g1, g2, g3⟩ := (px_eq_some _ _ _ _ _).mp hb
+      simp only [List.getElem?_cons_zero, Option.some.injEq] at h1 g1
+      subst h1 g1
+      match j with
+      | 0 =>
+        simp only [List.getElem?_cons_zero, Option.some.injEq] at h2 g2
+        subst h2 g2
+        match r with
+        | 0 =>
+          simp only [List.getElem?_cons_zero, Option.some.injEq] at h3 g3
+          subst h3 g3
+          exact ⟨x, by simp, roundDec_within 2 x⟩
+        | r + 1 => simp at h3
+      | j + 1 => simp at h2
+    | 1 => simp at hp
+    | i + 2 => simp at hp
+
+/-- From the exact values to the two float64 imports: if the exact images (`sb`: recorded counts
+per second, `sc`: the decimals in the CSV text) agree with `printSlack`, then any two images whose
+pixels are within `2⁻⁵³` (relative) of them — what correctly rounded float64 division and
+decimal-to-binary conversion deliver — agree with `agreeSlack`.  This is the verdict the
+correspondence check demands of pewlib's two real imports. -/
+theorem agree_transfer (tol : Rat) (present : List Bool) (sb sc ib ic : Image Rat)
+    (hb : Near (1 / 2 ^ 53) sb.img ib.img) (hc : Near (1 / 2 ^ 53) sc.img ic.img)
+    (h : agree tol printSlack present sb sc = true) :
+    agree tol agreeSlack present ib ic = true := by
+  rw [agree_iff] at h ⊢
+  refine ⟨sameShape_near _ present _ _ _ _ hb hc h.1, ?_⟩
+  intro i j r x' y' hp hx' hy'
+  obtain ⟨x, hx, hxn⟩ := near_px _ _ _ hb i j r x' hx'
+  obtain ⟨y, hy, hyn⟩ := near_px _ _ _ hc i j r y' hy'
+  exact agreePx_transfer tol x y x' y' hxn hyn (h.2 i j r x y hp hx hy)
+
+/-- non-vacuity of `agree_transfer`: the exact images themselves are within any relative distance -/
+example (sb sc : Image Rat) (present : List Bool) (h : agree (halfUnit 2) printSlack present sb sc = true) :
+    agree (halfUnit 2) agreeSlack present sb sc = true :=
+  agree_transfer _ present sb sc sb sc (near_refl _ (by norm_num) _) (near_refl _ (by norm_num) _) h
 
 end Pew.Agilent
